@@ -20,7 +20,7 @@ func TestC13(t *testing.T) {
 	mon.Main(t, mon.Check{
 		ID:    "C13",
 		Level: "exploration",
-		Rule:  "real gbn code in virtual time, keepalive on. (D) dead peer: after some acknowledged traffic the transport goes silent (incoming link blackholed, or both) at an instant swept over offsets 0..2*ping after the last activity and over exact multiples of the ping interval; at that instant the application queues k in {0,1,N-1,N,N+5} messages; ping/pong in {(5s,3s),(7s,3s),(1s,1s),(100ms,50ms),(30s,10s),(1s,3s)}, N in {1,3,20,254}, static and adaptive timeouts. Oracle: the endpoint closes itself within ping+pong+10*resendTimeout(at closure)+1s of the silence instant, and its blocked callers return. (H) healthy idle: both ends keepalive (mailbox's 7s/3s vs 5s/3s and others), round-trip time in {0, pong/2, pong-20ms}, 1-24 h of virtual idleness, a third of them with the ACK of a keepalive ping lost now and then (the resent ping is answered by a NACK within the pong timeout); oracle: no endpoint closes and ping packets were seen on the wire. Non-trivial = silence was injected while the connection was open / pings observed; distinct = (kind, ping, pong, N, backlog class, one/two-sided, timeout mode, offset bucket).",
+		Rule:  "real gbn code in virtual time, keepalive on. (D) dead peer: after some acknowledged traffic the transport goes silent (incoming link blackholed, or both) at an instant swept over offsets 0..2*ping after the last activity and over exact multiples of the ping interval; at that instant the application queues k in {0,1,N-1,N,N+5} messages; a small real-time slice repeats the dead-peer case with a slow transport (every write takes 0.8 ping intervals, so the send loop is hardly ever parked when a keepalive timer fires; it cannot run in a bubble because Close then waits for a write while other goroutines wait on its sync.Once); ping/pong in {(5s,3s),(7s,3s),(1s,1s),(100ms,50ms),(30s,10s),(1s,3s)}, N in {1,3,20,254}, static and adaptive timeouts. Oracle: the endpoint closes itself within ping+pong+10*resendTimeout(at closure)+1s of the silence instant, and its blocked callers return. (H) healthy idle: both ends keepalive (mailbox's 7s/3s vs 5s/3s and others), round-trip time in {0, pong/2, pong-20ms}, 1-24 h of virtual idleness, a third of them with the ACK of a keepalive ping lost now and then (the resent ping is answered by a NACK within the pong timeout); oracle: no endpoint closes and ping packets were seen on the wire. Non-trivial = silence was injected while the connection was open / pings observed; distinct = (kind, ping, pong, N, backlog class, one/two-sided, timeout mode, offset bucket).",
 		Assumptions: []string{
 			"detection bound uses the connection's own (possibly boosted) resend timeout read through the hook: the send loop may sit in the resend sync wait (3x resend timeout) when the timers fire",
 		},
@@ -43,7 +43,63 @@ var c13PP = []pp{
 	{time.Second, 3 * time.Second}, // ping interval shorter than the pong timeout
 }
 
+// runC13SlowWrites: dead peer behind a slow transport, on the real clock.
+func runC13SlowWrites(c *mon.Case) {
+	rng := c.Rng
+	k := []pp{{100 * time.Millisecond, 50 * time.Millisecond}, {250 * time.Millisecond, 250 * time.Millisecond}}[rng.Intn(2)]
+	n := []uint8{1, 3, 20}[rng.Intn(3)]
+	conf := eng.GBNConf{N: n, PingC: k.ping, PongC: k.pong, Static: true, Resend: time.Second}
+	ctx, cancel := context.WithCancel(context.Background())
+	defer cancel()
+	p := eng.NewPair(conf)
+	ce, se := p.Connect(ctx)
+	if ce != nil || se != nil {
+		c.Shard.Inconc(fmt.Sprintf("handshake failed: %v / %v", ce, se))
+		p.CloseAll()
+		return
+	}
+	go func() {
+		for {
+			if _, err := p.S.Recv(); err != nil {
+				return
+			}
+		}
+	}()
+	for i := 0; i < 3; i++ {
+		_ = p.C.Send(eng.MsgBytes('a', i, 20))
+	}
+	time.Sleep(50 * time.Millisecond)
+	p.C2S.SetSendCost(k.ping * 4 / 5)
+	p.S2C.SetBlackhole(true, true)
+	t0 := time.Now()
+	go func() {
+		for i := 0; i < int(n)+5; i++ {
+			if p.C.Send(eng.MsgBytes('a', 3+i, 20)) != nil {
+				return
+			}
+		}
+	}()
+	bound := k.ping + k.pong + 10*time.Second + time.Duration(2*int(n)+4)*k.ping + 5*time.Second
+	rep := map[string]any{"kind": "S", "conf": conf.String(), "bound": bound.String()}
+	select {
+	case <-p.C.VerifDone():
+		c.Shard.Max("max_detection_slow_transport_ms", time.Since(t0).Milliseconds())
+	case <-time.After(bound):
+		c.Shard.Violate("dead-peer-undetected|slow-transport",
+			fmt.Sprintf("transport silent for %v (real time), every write taking %v, window N=%d full: the endpoint is still open (ping %v, pong %v)", bound, k.ping*4/5, n, k.ping, k.pong), rep)
+	}
+	p.C2S.SetSendCost(0)
+	cancel()
+	p.CloseAll()
+	c.Shard.Count("slow_transport_cases", 1)
+	c.Shard.Eval(fmt.Sprintf("S|%v|%d", k.ping, n))
+}
+
 func runC13(c *mon.Case) {
+	if c.Idx%75 == 74 {
+		runC13SlowWrites(c)
+		return
+	}
 	if c.Idx%5 == 4 {
 		runC13Healthy(c)
 		return
@@ -144,6 +200,9 @@ func runC13Dead(c *mon.Case) {
 			return
 		default:
 		}
+		// a slow transport: every write of the endpoint under test takes a
+		// good part of the ping interval, so that its send loop is hardly
+		// ever parked when a keepalive timer fires
 		// silence
 		tSilence := time.Now()
 		in.SetBlackhole(true, true)
